@@ -18,7 +18,7 @@ OBLIGATIONS = [
     "mgm2_fake_offer_drops_offers_refuted", "nonfinite_float_refuted",
     "tuple_and_namedtuple_survive", "maxsum_int_keys_survive", "mgm2_offer_survives",
 ]
-N_QUICK, N_THOROUGH = 260, 2500
+N_QUICK, N_THOROUGH = 200, 2500
 PARALLEL = 8
 SHARD = 40
 RULE = ("seeded mix of: (tree) random python value trees over None/bool/int/float/str/list/tuple/"
@@ -993,6 +993,13 @@ def census_objects(rng):
         except Exception as e:
             notes.append("graph_objects(%s) failed: %s: %s" % (a, type(e).__name__, str(e)[:80]))
     objs += infra_messages(rng)
+    # messages with a hand-written repr need well-typed contents (never left to the fallback below)
+    from pydcop.algorithms.maxsum import MaxSumMessage
+    from pydcop.algorithms.mgm2 import Mgm2OfferMessage
+    from pydcop.algorithms.dpop import DpopMessage
+    objs += [MaxSumMessage({0: rng.randint(0, 9) / 2, 1: rng.randint(0, 9)}),
+             Mgm2OfferMessage({(0, 1): rng.randint(0, 9) / 2, ("R", 2): 3}, True), Mgm2OfferMessage(),
+             DpopMessage("VALUE", ([x1], [1])), DpopMessage("UTIL", m)]
     # classes still without an instance: generic instantiation from the signature
     classes, failed_imports = all_classes()
     have = set()
@@ -1014,6 +1021,7 @@ def census_objects(rng):
                         continue
                     kw[n] = rng.choice(pool)
                 inst = C(**kw)
+            simple_repr(inst)      # arbitrary scalars may be ill-typed for this class: then report it
             objs.append(inst)
             have.add(C)
         except Exception as e:
